@@ -104,6 +104,8 @@ Record ust := { u_ph : phase; u_inp : bytes; u_used : N; u_o : obuf; u_value : Z
 
 Section DU.
   Variables (isz vpm mpb : N).
+  (* the miniblock reader (a parameter so that Impl/CHw.v can plug in the x86 reading of the undefined shifts) *)
+  Variable reader : bytes -> N -> N -> res (list N * bytes * N).
 
   Definition u_done (s : ust) : bool := match u_ph s with PDone => true | _ => false end.
 
@@ -138,7 +140,7 @@ Section DU.
           else
             let temp := o_loc (u_o s) in
             if (1 <? u_count s)%Z then
-              match c_delta_read_bitpacked (u_inp s) w vpm with
+              match reader (u_inp s) w vpm with
               | Ok (ds, inp', k) =>
                 match o_write_all isz (u_o s) ds with
                 | Ok o' => Ok {| u_ph := PVals ws i md true 0; u_inp := inp'; u_used := u_used s + k;
@@ -170,7 +172,8 @@ Section DU.
 End DU.
 
 (* result: the items of the output buffer, input bytes consumed, output cursor *)
-Definition c_delta_binary_unpack (input : bytes) (items : list N) (nbytes : N) (longval : bool)
+Definition c_delta_binary_unpack_gen (reader : bytes -> N -> N -> res (list N * bytes * N))
+  (input : bytes) (items : list N) (nbytes : N) (longval : bool)
   : res (list N * N * N) :=
   let isz := if longval then 8 else 4 in
   match c_varint input with
@@ -187,7 +190,7 @@ Definition c_delta_binary_unpack (input : bytes) (items : list N) (nbytes : N) (
       let s0 := {| u_ph := PBlock; u_inp := i4; u_used := k1 + k2 + k3 + k4;
                    u_o := {| o_items := items; o_loc := 0; o_nbytes := nbytes |};
                    u_value := s64 (c_zigzag_long zf); u_count := s64 cnt |} in
-      match run_loop u_done (u_step isz vpm mpb) big_fuel s0 with
+      match run_loop u_done (u_step isz vpm mpb reader) big_fuel s0 with
       | Ok s => Ok (o_items (u_o s), u_used s, o_loc (u_o s))
       | OOB => OOB | UB => UB | Fuel => Fuel
       end
@@ -195,3 +198,5 @@ Definition c_delta_binary_unpack (input : bytes) (items : list N) (nbytes : N) (
   | OOB => OOB | UB => UB | Fuel => Fuel end
   | OOB => OOB | UB => UB | Fuel => Fuel end
   | OOB => OOB | UB => UB | Fuel => Fuel end.
+
+Definition c_delta_binary_unpack := c_delta_binary_unpack_gen c_delta_read_bitpacked.
